@@ -44,8 +44,8 @@ LEVEL_TEXT = ("Lean 4 theorems: the regenerated class rows (opcode, address/inst
               "application-extended commands carry device type part-201 (extended_commands_carry_devicetype).")
 LEVEL_NOTE = ("Trusted: Lean kernel + 3 axioms; the Spec tables are my transcription of the standards (pinned entries "
               "marked); translator; the constructor/decoder models tied by C01/C02's correspondence."
-              " The constructors that assemble the frames (276 command classes, push-button and light events) are also tied by translation of the source on every run (Tie/Command.lean, Tie/Event.lean).")
-TECHNIQUE = "Lean 4: regenerated class table = transcribed IEC tables by decide +kernel; generic frame-layout theorem; per-class code-vs-standard-row comparison + source translation tie (Tie/Command, Tie/Event, Tie/Address)"
+              " The constructors that assemble the frames (314 command classes incl. all special commands, push-button / light / occupancy events) are also tied by translation of the source on every run (Tie/Command.lean, Tie/Special.lean, Tie/Event.lean).")
+TECHNIQUE = "Lean 4: regenerated class table = transcribed IEC tables by decide +kernel; generic frame-layout theorem; per-class code-vs-standard-row comparison + source translation tie (Tie/Command, Tie/Special, Tie/Event, Tie/Address)"
 
 
 def answer_class(r):
